@@ -1,4 +1,4 @@
-\* C01 thorough: events as in quick; E: every event x 11 leaf predicates x all 6 entries, and as call-site filter;
+\* C01 thorough: events and entries as in quick (extent none / point / forward / empty / inverted range; 12 entries); E: every event x 11 leaf predicates x all 6 entries, and as call-site filter;
 \* F: all filter trees of depth <= 2 over {true,false,has_b} (with / without ambient b), depth <= 1 over 11 predicates,
 \*    depth 3 over {true,false} with one side of depth <= 1 (and/or(d2,d1), and/or(d1,d2), wrappers(d2)) for Runtime::emit;
 \* R: nested Runtime scenario for all 6 entries; node kinds as in quick (wrapping::from_fn, nested Runtime, AssertInternal included);
